@@ -188,6 +188,19 @@ func runC06(c *Ctx) {
 			}
 			return true
 		})
+		if !has && mc.Obj != nil {
+			// the sort moved with the collected annotations into a helper or a method of a collector
+			for _, f := range reachSSA(p.SSAFunc(mc.Obj), 2) {
+				if f.Pkg == nil || f.Pkg.Pkg.Path() != mc.Pkg.PkgPath {
+					continue
+				}
+				for _, call := range callsIn(f) {
+					if fn := staticCalleeObj(call.Call); fn != nil && fn.Pkg() != nil && (fn.Pkg().Path() == "sort" || fn.Pkg().Path() == "slices" && strings.HasPrefix(fn.Name(), "Sort")) {
+						has = true
+					}
+				}
+			}
+		}
 		c.Ob("SORTED", "multiClient.Check/annotations", mc.Decl.Pos(), has, false, "merged annotations are sorted: %v (sort-after-barrier is an obligation of C02)", has)
 	} else {
 		c.Fail("SORTED", "multiClient.Check", token.NoPos, "not found")
